@@ -114,6 +114,16 @@ def search(ctx):
         if len(samples) < 3: samples.append({'segment': gen.seg_json(s), 'calls': calls, 't': t})
         f = check(s, calls, t, centre, angle, k)
         if f: fails.append({'class': 'C09-identity', 'what': f[0], 'input': {'segment': gen.seg_json(s), 'calls': calls, 't': t, 'centre': [centre.x, centre.y], 'angle': angle, 'k': k}, 'observed': f, 'expected': 'identities of C09 within 1e-9*scale'})
+    # invertible maps with a tiny determinant (uniform and non-uniform small scalings): the inverse must still undo them
+    for _ in range(ctx.n(40, 600)):
+        sx = 10 ** rng.uniform(-7, -2); sy = rng.choice([sx, 10 ** rng.uniform(-7, -2)])
+        calls = [('scale', sx, sy), ('translate', rng.uniform(-5, 5), rng.uniform(-5, 5))]
+        if rng.random() < 0.5: calls.insert(0, ('rotate', rng.uniform(-3, 3)))
+        m = build(calls); mi = AffineTransformation([list(r) for r in m.matrix]); mi.invert()
+        p = P(rng.uniform(-300, 300), rng.uniform(-300, 300))
+        q = p.transformed(m).transformed(mi)
+        if not (abs(q.x - p.x) <= 1e-6 * (1 + abs(p.x)) + 1e-6 and abs(q.y - p.y) <= 1e-6 * (1 + abs(p.y)) + 1e-6):
+            fails.append({'class': 'C09-identity', 'what': f'map followed by its inverse is not the identity for the invertible map {calls} (det {sx * sy:.3g}): ({p.x},{p.y}) -> ({q.x},{q.y})', 'input': {'invert_calls': calls, 'point': [p.x, p.y]}, 'observed': [q.x, q.y], 'expected': [p.x, p.y]})
     # scale axes, explicitly including zero factors
     for fx, fy in [(2.0, 0.0), (0.0, 3.0), (-1.5, 0.0), (2.0, None), (0.0, None), (1.0, -1.0)]:
         q = P(3.0, 4.0).transformed(AffineTransformation.scaling(fx, fy))
@@ -125,6 +135,11 @@ def search(ctx):
 
 def replay(ctx, payload):
     i = payload['input']
+    if 'invert_calls' in i:
+        m = build([tuple(c) for c in i['invert_calls']]); mi = AffineTransformation([list(r) for r in m.matrix]); mi.invert()
+        p = P(*i['point']); q = p.transformed(m).transformed(mi)
+        bad = not (abs(q.x - p.x) <= 1e-6 * (1 + abs(p.x)) + 1e-6 and abs(q.y - p.y) <= 1e-6 * (1 + abs(p.y)) + 1e-6)
+        return {'fails': bad, 'observed': [q.x, q.y]}
     if 'scaling' in i:
         fx, fy = i['scaling']
         q = P(3.0, 4.0).transformed(AffineTransformation.scaling(fx, fy))
